@@ -366,7 +366,12 @@ class Length(Family):
                 d = [rng.randint(-8, 8) / 8.0 for _ in range(s["dim"])]
                 ts = sorted(rng.sample(range(0, 64), n_))
                 s["ctrlpts"] = [[a[c] + d[c] * t for c in range(s["dim"])] for t in ts]
-            out.append(_add_edit(rng, {"shape": s, "sample": rng.choice([2, 3, 5, 8, 13, 21]), "mal": "none"}, i, s["dim"]))
+            cc = _add_edit(rng, {"shape": s, "sample": rng.choice([2, 3, 5, 8, 13, 21]), "mal": "none"}, i, s["dim"])
+            if rng.random() < 0.3:
+                # non-default `precision` option (decimals kept for sampled parameters): the sample sizes make 1/(n-1) non-representable
+                cc["precision"] = rng.choice([3, 4, 6])
+                cc["sample"] = rng.choice([4, 7, 10, 13])
+            out.append(cc)
         return out
 
     def impl(self, c):
@@ -374,7 +379,7 @@ class Length(Family):
         s = _edited(c)
 
         def f():
-            o = T.build(s0)
+            o = T.build(s0, precision=c["precision"]) if c.get("precision") else T.build(s0)
             if not T.kv_unchanged(o, s0):
                 return {"skip": "knot vector altered by normalisation"}
             o.sample_size = c["sample"]
@@ -388,8 +393,8 @@ class Length(Family):
         return call(f)
 
     def coq(self, c, out):
-        if c["mal"] != "none" or "ok" not in out or "skip" in out["ok"]:
-            return None
+        if c["mal"] != "none" or "ok" not in out or "skip" in out["ok"] or c.get("precision"):
+            return None     # with a precision option the sampled parameters are rounded: only the oracle (length bounds) applies
         s, o = _edited(c), out["ok"]
         (a, b), = T.domain(s)
         t = "curve_evalpts Qops %s %s %s U0 P %s %s %s" % (G.Q(TOL8), G.n(s["dim"]), G.n(s["degree"][0]), G.Q(a), G.Q(b), G.n(o["n"]))
